@@ -75,10 +75,16 @@ def run_cli(cli, r, scen, text, lib_convert, workdir, idx):
     else:
         stdin = text.encode("utf-8")
     outpath = None
+    pre_sha = ""
     if "o" in opts:
         outpath = os.path.join(d, "out.svg")
         if "unwritable" in fault:
             outpath = os.path.join(d, "no-such-dir", "out.svg")
+        elif r.random() < 0.5:
+            # the output file already exists and is longer than the document: "-o" replaces it
+            with open(outpath, "wb") as f:
+                f.write(b"<!-- stale output -->\n" * 2000)
+            pre_sha = sha(b"<!-- stale output -->\n" * 2000)
         argv += ["-o", outpath]
     p = subprocess.run([cli] + argv, input=stdin if stdin is not None else b"", stdout=subprocess.PIPE,
                        stderr=subprocess.PIPE, timeout=60)
@@ -89,7 +95,7 @@ def run_cli(cli, r, scen, text, lib_convert, workdir, idx):
         with open(outpath, "rb") as f:
             file_sha = sha(f.read())
     ob = {"exit": p.returncode, "stdout_sha": sha(p.stdout), "stdout_len": len(p.stdout), "stderr_len": len(p.stderr),
-          "file_exists": file_exists, "file_sha": file_sha, "lib_sha": sha(lib), "lib_nl_sha": sha(lib + b"\n")}
+          "file_exists": file_exists, "file_sha": file_sha, "pre_sha": pre_sha, "lib_sha": sha(lib), "lib_nl_sha": sha(lib + b"\n")}
     shutil.rmtree(d, ignore_errors=True)
     return ob, {"argv": argv, "settings": st, "stdout_head": p.stdout[:200].decode("utf-8", "replace"),
                 "stderr": p.stderr[:200].decode("utf-8", "replace")}
